@@ -182,6 +182,9 @@ Inductive vop :=
 | OEnterFunc (site : N) (extensible : bool)
                                (* vm.go:3747-3757 (also 3817, 3864): the names map is COPIED when the scope is dynamic
                                   (sloppy direct eval / with), shared otherwise *)
+| OBindGlobal (site : N)       (* vm.go bindGlobal.exec: checkBind*Global / createGlobal{Var,Func}Bindings / createLexBinding read the
+                                  instruction's vars/funcs/lets/consts slices (Program-owned) and define the bindings on the
+                                  runtime's global object / global stash *)
 | OLookupName (site : N)       (* dynamic lookup stash.names[name] (vm.go:486-529) on a shared map: read *)
 | OEvalBindVar                 (* eval("var x"): bindVars vm.go:4251 -> stash.createBinding vm.go:563 writes the names
                                   map of the nearest function stash, which is a copy (extensible) or fresh: runtime-owned;
@@ -207,6 +210,7 @@ Definition ev_vop (r : nat) (p : N) (o : vop) : list event :=
   | OTmplRedefine s raw i => [Rd (LRt r 3); Wr (LRt r 3)]
   | OEnterBlock s => [Rd (P (PNames s)); Wr (LRt r 4)]
   | OEnterFunc s ext => [Rd (P (PNames s)); Wr (LRt r 4)]
+  | OBindGlobal s => [Rd (P (PNames s)); Rd (LRt r 4); Wr (LRt r 4)]
   | OLookupName s => [Rd (LRt r 4); Rd (P (PNames s))]
   | OEvalBindVar => [Rd (LRt r 4); Wr (LRt r 4)]
   | ODeleteBinding => [Rd (LRt r 4); Wr (LRt r 4)]
